@@ -87,6 +87,63 @@ func allInstrList(fn *ssa.Function) []ssa.Instruction {
 	return out
 }
 
+// signatureWriteReachable: can instruction `at` of fn execute while root.Explicit is true?  When root is a parameter
+// of a private helper the question is asked at every call site of the helper, about the argument passed there.
+func signatureWriteReachable(p *Prog, fn *ssa.Function, at ssa.Instruction, root ssa.Value, field string, depth int) bool {
+	if prm, ok := root.(*ssa.Parameter); ok && depth < 3 && prm.Parent() == fn && fn.Object() != nil && !fn.Object().Exported() {
+		idx := -1
+		for i, q := range fn.Params {
+			if q == prm {
+				idx = i
+			}
+		}
+		sites := p.SSACallSites(fn)
+		if idx < 0 || len(sites) == 0 {
+			return true
+		}
+		for _, cs := range sites {
+			args := cs.Common().Args
+			if idx >= len(args) {
+				return true
+			}
+			if signatureWriteReachable(p, cs.Parent(), cs, fieldRoot(args[idx]), field, depth+1) {
+				return true
+			}
+		}
+		return false
+	}
+	for _, init := range []bool{false, true} {
+		sc := &absScenario{
+			assume: func(v ssa.Value, _ func(ssa.Value) absVal) (absVal, bool) {
+				if ld, isLd := v.(*ssa.UnOp); isLd && ld.Op == token.MUL {
+					if fa, isFA := ld.X.(*ssa.FieldAddr); isFA && fieldName(fa) == "Explicit" && fieldRoot(fa) == root {
+						return aBool(true), true
+					}
+				}
+				return aUnknown, false
+			},
+			tracked: map[string]absVal{field: aBool(init)},
+			fieldOK: func(fa *ssa.FieldAddr) bool { return fieldRoot(fa) == root },
+			marks: func(x ssa.Instruction) (string, bool) {
+				return "w", x == at
+			},
+		}
+		if field != "ReturnError" && field != "UpdateTarget" && field != "TypeParams" {
+			sc.tracked = nil
+		}
+		got := absReachState(fn, sc, func(_ *ssa.Return, _ func(ssa.Value) absVal, st map[string]absVal) bool {
+			return st["@w"].k == absBool && st["@w"].b
+		})
+		if got != nil {
+			return true
+		}
+		if sc.tracked == nil {
+			break
+		}
+	}
+	return false
+}
+
 func isParametersField(fa *ssa.FieldAddr) bool {
 	pt, ok := fa.X.Type().Underlying().(*types.Pointer)
 	return ok && isNamed(pt.Elem(), modPath+"/method", "Parameters")
@@ -138,39 +195,11 @@ func declaredSignatureRule(p *Prog, r *Report, id string) {
 			}
 			pt, isPtr := root.Type().Underlying().(*types.Pointer)
 			if !isPtr || !isNamed(pt.Elem(), modPath+"/generator", "generatedMethod") {
+				_ = fn
 				r.Bad(site, p.PosStr(in.Pos()), "a signature field of an existing method definition is written through "+root.Type().String()+", which carries no Explicit flag: a declared method's signature may change")
 				return
 			}
-			reached := false
-			for _, init := range []bool{false, true} {
-				sc := &absScenario{
-					assume: func(v ssa.Value, _ func(ssa.Value) absVal) (absVal, bool) {
-						if ld, isLd := v.(*ssa.UnOp); isLd && ld.Op == token.MUL {
-							if fa, isFA := ld.X.(*ssa.FieldAddr); isFA && fieldName(fa) == "Explicit" && fieldRoot(fa) == root {
-								return aBool(true), true
-							}
-						}
-						return aUnknown, false
-					},
-					tracked: map[string]absVal{field: aBool(init)},
-					fieldOK: func(fa *ssa.FieldAddr) bool { return fieldRoot(fa) == root },
-					marks: func(x ssa.Instruction) (string, bool) {
-						return "w", x == in
-					},
-				}
-				if field != "ReturnError" && field != "UpdateTarget" && field != "TypeParams" {
-					sc.tracked = nil
-				}
-				got := absReachState(fn, sc, func(_ *ssa.Return, _ func(ssa.Value) absVal, st map[string]absVal) bool {
-					return st["@w"].k == absBool && st["@w"].b
-				})
-				if got != nil {
-					reached = true
-				}
-				if sc.tracked == nil {
-					break
-				}
-			}
+			reached := signatureWriteReachable(p, fn, in, root, field, 0)
 			if reached {
 				bad++
 				r.Bad(site, p.PosStr(in.Pos()), "the write is reachable although the written method's own Explicit flag is true: a declared method would get a signature its declaration does not have (extra parameter / error result) — the guard must test the method that is written")
@@ -269,6 +298,77 @@ func kindCallRole(v ssa.Value) string {
 	return role
 }
 
+// matchAtomAssume builds the atom recogniser for a Matches predicate: atoms maps "source.Basic", "flag:X", "kindEq",
+// "stringEq", "enumOK" to the value assumed; everything else stays unknown.
+func matchAtomAssume(atoms map[string]bool, used map[string]bool) func(v ssa.Value, _ func(ssa.Value) absVal) (absVal, bool) {
+	return func(v ssa.Value, _ func(ssa.Value) absVal) (absVal, bool) {
+		if role, path := roleFieldPath(v); role != "" {
+			if want, ok := atoms[role+"."+path]; ok {
+				used[role+"."+path] = true
+				return aBool(want), true
+			}
+		}
+		for a, want := range atoms {
+			if len(a) > 5 && a[:5] == "flag:" && loadsField(v, a[5:]) {
+				used[a] = true
+				return aBool(want), true
+			}
+		}
+		if want, ok := atoms["enumOK"]; ok && loadsField(v, "OK") {
+			used["enumOK"] = true
+			return aBool(want), true
+		}
+		if b, ok := v.(*ssa.BinOp); ok && b.Op == token.EQL {
+			if want, ok := atoms["kindEq"]; ok {
+				x, y := kindCallRole(b.X), kindCallRole(b.Y)
+				if (x == "source" && y == "target") || (x == "target" && y == "source") {
+					used["kindEq"] = true
+					return aBool(want), true
+				}
+			}
+			if want, ok := atoms["stringEq"]; ok {
+				xr, xp := roleFieldPath(b.X)
+				yr, yp := roleFieldPath(b.Y)
+				if xp == "String" && yp == "String" && xr != "" && yr != "" && xr != yr {
+					used["stringEq"] = true
+					return aBool(want), true
+				}
+			}
+		}
+		if c, ok := v.(*ssa.Call); ok && ssaCalleeObj(c) != nil && isFunc(ssaCalleeObj(c), "go/types", "", "Identical") {
+			if want, ok := atoms["stringEq"]; ok {
+				used["stringEq"] = true
+				return aBool(want), true
+			}
+		}
+		return aUnknown, false
+	}
+}
+
+// gateByEval: for the documented condition of fn (matchCondTable), fixing any single atom to the opposite value makes
+// `return true` unreachable — Matches can hold only under its gate.  Used when the gate facts are not visible at the
+// return sites themselves.
+func gateByEval(sf *ssa.Function, fn string) bool {
+	key := fn
+	if fn == "builder.isEnum" {
+		key = "builder.(*Enum).Matches"
+	}
+	for _, mc := range matchCondTable {
+		if mc.fn != key {
+			continue
+		}
+		for a, want := range mc.atoms {
+			used := map[string]bool{}
+			sc := &absScenario{assume: matchAtomAssume(map[string]bool{a: !want}, used)}
+			if absReach(sf, sc, trueGoal) != nil || !used[a] {
+				return false
+			}
+		}
+		return true
+	}
+	return false
+}
+
 // matchesCompleteRule: evaluated with the documented condition assumed (and everything else unknown), Matches cannot
 // return false — an additional test (`!target.Named`, a setting, identity instead of kind equality) makes the rule
 // step aside for inputs it is documented to handle; they then fall to a later rule or to "no rule" (rejected).
@@ -288,48 +388,7 @@ func matchesCompleteRule(p *Prog, r *Report, id, why string, only ...string) {
 		}
 		site := mc.fn + "/complete"
 		used := map[string]bool{}
-		sc := &absScenario{
-			assume: func(v ssa.Value, _ func(ssa.Value) absVal) (absVal, bool) {
-				if role, path := roleFieldPath(v); role != "" {
-					if want, ok := mc.atoms[role+"."+path]; ok {
-						used[role+"."+path] = true
-						return aBool(want), true
-					}
-				}
-				for a, want := range mc.atoms {
-					if len(a) > 5 && a[:5] == "flag:" && loadsField(v, a[5:]) {
-						used[a] = true
-						return aBool(want), true
-					}
-				}
-				if mc.atoms["enumOK"] && loadsField(v, "OK") {
-					used["enumOK"] = true
-					return aBool(true), true
-				}
-				if b, ok := v.(*ssa.BinOp); ok && b.Op == token.EQL {
-					if mc.atoms["kindEq"] {
-						x, y := kindCallRole(b.X), kindCallRole(b.Y)
-						if (x == "source" && y == "target") || (x == "target" && y == "source") {
-							used["kindEq"] = true
-							return aBool(true), true
-						}
-					}
-					if mc.atoms["stringEq"] {
-						xr, xp := roleFieldPath(b.X)
-						yr, yp := roleFieldPath(b.Y)
-						if xp == "String" && yp == "String" && xr != "" && yr != "" && xr != yr {
-							used["stringEq"] = true
-							return aBool(true), true
-						}
-					}
-				}
-				if c, ok := v.(*ssa.Call); ok && mc.atoms["stringEq"] && ssaCalleeObj(c) != nil && isFunc(ssaCalleeObj(c), "go/types", "", "Identical") {
-					used["stringEq"] = true
-					return aBool(true), true
-				}
-				return aUnknown, false
-			},
-		}
+		sc := &absScenario{assume: matchAtomAssume(mc.atoms, used)}
 		if got := absReach(sf, sc, falseGoal); got != nil {
 			r.Bad(site, p.PosStr(got.Pos()), "can return false although its documented condition ("+mc.doc+") holds: an additional or stricter test makes the rule step aside for inputs it is documented to handle")
 			continue
@@ -1302,6 +1361,19 @@ func requireStructRule(p *Prog, r *Report, id string) {
 					if len(findCalls(info, cc, modPath+"/config", "Converter", "requireStruct")) >= 1 {
 						found = true
 					}
+					// … or hands the line to a private helper that does
+					ast.Inspect(cc, func(m ast.Node) bool {
+						call, ok := m.(*ast.CallExpr)
+						if !ok {
+							return true
+						}
+						if f, ok := calleeObj(info, call).(*types.Func); ok && !f.Exported() {
+							if h := p.Func(funcKey(f)); h != nil && p.inRegion("config.parseConverterLine", h) && len(findCalls(info, h.Decl, modPath+"/config", "Converter", "requireStruct")) >= 1 {
+								found = true
+							}
+						}
+						return true
+					})
 					return true
 				})
 			}
@@ -1337,16 +1409,34 @@ func resolvePackageRelRule(p *Prog, r *Report, id string) {
 	}
 	srcFile, target := strs[0], strs[2]
 	nAbs := 0
+	// a parameter of a private helper stands for the argument passed at its (single) call site
+	var resolve func(v ssa.Value, d int) ssa.Value
+	resolve = func(v ssa.Value, d int) ssa.Value {
+		prm, ok := v.(*ssa.Parameter)
+		if !ok || prm.Parent() == sf || d > 3 {
+			return v
+		}
+		sites := p.SSACallSites(prm.Parent())
+		if len(sites) != 1 {
+			return v
+		}
+		for i, q := range prm.Parent().Params {
+			if q == prm && i < len(sites[0].Common().Args) {
+				return resolve(sites[0].Common().Args[i], d+1)
+			}
+		}
+		return v
+	}
 	relOK := func(c *ssa.Call) bool {
-		if len(c.Call.Args) != 2 || c.Call.Args[1] != ssa.Value(target) {
+		if len(c.Call.Args) != 2 || resolve(c.Call.Args[1], 0) != ssa.Value(target) {
 			return false
 		}
 		d, ok := c.Call.Args[0].(*ssa.Call)
-		return ok && ssaCalleeObj(d) != nil && isFunc(ssaCalleeObj(d), "path/filepath", "", "Dir") && d.Call.Args[0] == ssa.Value(srcFile)
+		return ok && ssaCalleeObj(d) != nil && isFunc(ssaCalleeObj(d), "path/filepath", "", "Dir") && resolve(d.Call.Args[0], 0) == ssa.Value(srcFile)
 	}
 	sc := &absScenario{
 		calls: func(c *ssa.Call, _ func(ssa.Value) absVal) (absVal, bool) {
-			if fn := ssaCalleeObj(c); fn != nil && isFunc(fn, "path/filepath", "", "IsAbs") && len(c.Call.Args) == 1 && c.Call.Args[0] == ssa.Value(target) {
+			if fn := ssaCalleeObj(c); fn != nil && isFunc(fn, "path/filepath", "", "IsAbs") && len(c.Call.Args) == 1 && resolve(c.Call.Args[0], 0) == ssa.Value(target) {
 				nAbs++
 				return aBool(true), true
 			}
@@ -1674,7 +1764,7 @@ func definitionPackageRule(p *Prog, r *Report, id string) {
 // C17.O11: `gen` without a package pattern is a usage error
 
 func missingPatternRule(p *Prog, r *Report, id string) {
-	r.Rule(id, "`goverter gen` with options but without a PACKAGE pattern is a usage error (exit 1, nothing generated): evaluated with len(fs.Args()) — what is left after flag parsing — fixed to 0, cli.parseGen has no path returning success; and fixed to 1 a successful return exists", 2)
+	r.Rule(id, "`goverter gen` with options but without a PACKAGE pattern is a usage error (exit 1, nothing generated): evaluated with len(fs.Args()) / fs.NArg() — what is left after flag parsing — fixed to 0, cli.parseGen has no path returning success; and fixed to 1 a successful return exists", 2)
 	fi, sf := needFunc(p, r, "cli.parseGen")
 	if fi == nil {
 		return
@@ -1687,6 +1777,10 @@ func missingPatternRule(p *Prog, r *Report, id string) {
 				c, ok := v.(*ssa.Call)
 				if !ok {
 					return aUnknown, false
+				}
+				if ssaCalleeObj(c) != nil && isFunc(ssaCalleeObj(c), "flag", "FlagSet", "NArg") {
+					n++
+					return aInt(k), true
 				}
 				b, ok := c.Call.Value.(*ssa.Builtin)
 				if !ok || b.Name() != "len" || len(c.Call.Args) != 1 {
@@ -1705,8 +1799,7 @@ func missingPatternRule(p *Prog, r *Report, id string) {
 				return false
 			}
 			// the command returned is a *Generate (help is a success too, but generates nothing)
-			mi, ok := ret.Results[0].(*ssa.MakeInterface)
-			return !ok || isNamed(derefType(mi.X.Type()), modPath+"/cli", "Generate")
+			return mayBeGenerate(ret.Results[0], 0)
 		})
 		site := fmt.Sprintf("cli.parseGen/%d pattern(s) after the options", k)
 		switch {
@@ -1743,4 +1836,251 @@ func isParamOrItsCell(v ssa.Value) bool {
 		}
 	}
 	return n > 0
+}
+
+// ---------------------------------------------------------------------------
+// C16.R4 / C09.R7 (data-flow form): the -tags flag list of a packages.Load config
+
+// tagsWiringSSA decides on values instead of statement shapes: every value stored into the BuildFlags field of the
+// config handed to packages.Load is nil or the list ("-tags", T) — directly, appended to the (still empty) field, via a
+// local or a φ — where T is the unmodified tag string (a string parameter or a BuildTags field), and the list is built
+// only under `T != ""` and under no other condition.  ok=false: not proved (why says what is missing).
+func tagsWiringSSA(p *Prog, load ssa.CallInstruction) (bool, string) {
+	args := load.Common().Args
+	if len(args) == 0 {
+		return false, "no config argument"
+	}
+	cfg := args[0]
+	if ld, ok := cfg.(*ssa.UnOp); ok && ld.Op == token.MUL {
+		if cell, ok := ld.X.(*ssa.Alloc); ok && cell.Referrers() != nil {
+			for _, ref := range *cell.Referrers() {
+				if st, ok := ref.(*ssa.Store); ok && st.Addr == cell {
+					cfg = st.Val
+				}
+			}
+		}
+	}
+	al, ok := cfg.(*ssa.Alloc)
+	if !ok || al.Referrers() == nil {
+		return false, "the config is not a local composite literal"
+	}
+	isTagsField := func(v ssa.Value) bool {
+		ld, ok := v.(*ssa.UnOp)
+		if !ok || ld.Op != token.MUL {
+			return false
+		}
+		fa, ok := ld.X.(*ssa.FieldAddr)
+		return ok && fieldName(fa) == "BuildTags"
+	}
+	var plainTag func(v ssa.Value, d int) bool
+	plainTag = func(v ssa.Value, d int) bool {
+		if d > 4 {
+			return false
+		}
+		if prm, ok := v.(*ssa.Parameter); ok {
+			return types.Identical(prm.Type().Underlying(), types.Typ[types.String])
+		}
+		if isTagsField(v) {
+			return true
+		}
+		if ld, ok := v.(*ssa.UnOp); ok && ld.Op == token.MUL {
+			if cell, ok := ld.X.(*ssa.Alloc); ok && cell.Referrers() != nil {
+				n := 0
+				for _, ref := range *cell.Referrers() {
+					if st, ok := ref.(*ssa.Store); ok && st.Addr == cell {
+						n++
+						if !plainTag(st.Val, d+1) {
+							return false
+						}
+					}
+				}
+				return n > 0
+			}
+		}
+		return false
+	}
+	sameTag := func(a, b ssa.Value) bool {
+		if a == b {
+			return true
+		}
+		if isTagsField(a) && isTagsField(b) {
+			return fieldRoot(a.(*ssa.UnOp).X) == fieldRoot(b.(*ssa.UnOp).X)
+		}
+		la, oka := a.(*ssa.UnOp)
+		lb, okb := b.(*ssa.UnOp)
+		return oka && okb && la.Op == token.MUL && lb.Op == token.MUL && la.X == lb.X
+	}
+	type built struct {
+		tag ssa.Value
+		at  *ssa.BasicBlock
+	}
+	var lists []built
+	why := ""
+	// literal ("-tags", T)
+	literal := func(v ssa.Value) (ssa.Value, *ssa.BasicBlock, bool) {
+		sl, ok := v.(*ssa.Slice)
+		if !ok {
+			return nil, nil, false
+		}
+		arr, ok := sl.X.(*ssa.Alloc)
+		if !ok || arr.Referrers() == nil {
+			return nil, nil, false
+		}
+		elems := map[int64]ssa.Value{}
+		for _, ref := range *arr.Referrers() {
+			ia, ok := ref.(*ssa.IndexAddr)
+			if !ok || ia.Referrers() == nil {
+				continue
+			}
+			k, ok := ia.Index.(*ssa.Const)
+			if !ok {
+				return nil, nil, false
+			}
+			for _, r2 := range *ia.Referrers() {
+				if st, ok := r2.(*ssa.Store); ok && st.Addr == ia {
+					elems[k.Int64()] = st.Val
+				}
+			}
+		}
+		if len(elems) != 2 {
+			return nil, nil, false
+		}
+		k0, ok := elems[0].(*ssa.Const)
+		if !ok || k0.Value == nil || k0.Value.Kind() != constant.String || constant.StringVal(k0.Value) != "-tags" {
+			return nil, nil, false
+		}
+		return elems[1], sl.Block(), true
+	}
+	var flagList func(v ssa.Value, d int) bool
+	flagList = func(v ssa.Value, d int) bool {
+		if d > 6 {
+			why = "flag list too deeply nested"
+			return false
+		}
+		switch x := v.(type) {
+		case *ssa.Const:
+			return x.Value == nil
+		case *ssa.Slice:
+			if t, b, ok := literal(x); ok {
+				lists = append(lists, built{t, b})
+				return true
+			}
+		case *ssa.Call:
+			if a, b, ok := builtinAppend(x); ok {
+				// appended to the field itself (still empty) or to an empty list
+				okA := false
+				if k, isK := a.(*ssa.Const); isK && k.Value == nil {
+					okA = true
+				}
+				if ld, isLd := a.(*ssa.UnOp); isLd && ld.Op == token.MUL {
+					if fa, isFA := ld.X.(*ssa.FieldAddr); isFA && fieldName(fa) == "BuildFlags" && fa.X == ssa.Value(al) {
+						okA = true
+					}
+				}
+				if t, blk, okL := literal(b); okA && okL {
+					lists = append(lists, built{t, blk})
+					return true
+				}
+			}
+		case *ssa.Phi:
+			for _, e := range x.Edges {
+				if !flagList(e, d+1) {
+					return false
+				}
+			}
+			return true
+		case *ssa.UnOp:
+			if cell, ok := x.X.(*ssa.Alloc); ok && x.Op == token.MUL && cell.Referrers() != nil {
+				n := 0
+				for _, ref := range *cell.Referrers() {
+					if st, ok := ref.(*ssa.Store); ok && st.Addr == cell {
+						n++
+						if !flagList(st.Val, d+1) {
+							return false
+						}
+					}
+				}
+				return n > 0 || true
+			}
+		}
+		if why == "" {
+			why = "a value stored into BuildFlags is not nil or (\"-tags\", <tags>): " + v.String()
+		}
+		return false
+	}
+	nStores := 0
+	for _, ref := range *al.Referrers() {
+		fa, ok := ref.(*ssa.FieldAddr)
+		if !ok || fieldName(fa) != "BuildFlags" || fa.Referrers() == nil {
+			continue
+		}
+		for _, r2 := range *fa.Referrers() {
+			if st, ok := r2.(*ssa.Store); ok && st.Addr == fa {
+				nStores++
+				if !flagList(st.Val, 0) {
+					return false, why
+				}
+				if load.Block().Dominates(st.Block()) && load.Block() != st.Block() {
+					return false, "BuildFlags are set after packages.Load"
+				}
+			}
+		}
+	}
+	if nStores == 0 || len(lists) == 0 {
+		return false, "no (\"-tags\", <tags>) list reaches BuildFlags"
+	}
+	for _, l := range lists {
+		if !plainTag(l.tag, 0) {
+			return false, "the value after \"-tags\" is not the unmodified configured tag string"
+		}
+		facts := factsAt(l.at)
+		guard, other := false, 0
+		for _, f := range facts {
+			if b, ok := f.(*ssa.BinOp); ok && b.Op == token.NEQ {
+				if k, isK := b.Y.(*ssa.Const); isK && k.Value != nil && k.Value.Kind() == constant.String && constant.StringVal(k.Value) == "" && sameTag(b.X, l.tag) {
+					guard = true
+					continue
+				}
+			}
+			other++
+		}
+		if !guard || other > 0 {
+			return false, "the -tags flag is not guarded by exactly `tags != \"\"`"
+		}
+	}
+	return true, ""
+}
+
+// mayBeGenerate: the Command value can be a *cli.Generate (followed through φ and the results of own helpers).
+func mayBeGenerate(v ssa.Value, d int) bool {
+	if d > 4 {
+		return true
+	}
+	switch x := v.(type) {
+	case *ssa.MakeInterface:
+		return isNamed(derefType(x.X.Type()), modPath+"/cli", "Generate")
+	case *ssa.Const:
+		return false
+	case *ssa.Phi:
+		for _, e := range x.Edges {
+			if mayBeGenerate(e, d+1) {
+				return true
+			}
+		}
+		return false
+	case *ssa.Extract:
+		if c, ok := x.Tuple.(*ssa.Call); ok {
+			if callee := c.Call.StaticCallee(); callee != nil && len(callee.Blocks) > 0 {
+				for _, b := range callee.Blocks {
+					for _, in := range b.Instrs {
+						if ret, ok := in.(*ssa.Return); ok && x.Index < len(ret.Results) && mayBeGenerate(ret.Results[x.Index], d+1) {
+							return true
+						}
+					}
+				}
+				return false
+			}
+		}
+	}
+	return true
 }
